@@ -102,6 +102,8 @@ enum Ev {
     Timeout(u8, u8),   // i has not heard from j for longer than the heartbeat timeout
     Disconnect(u8, u8),
     Restart(u8), // node j restarts: fresh manager, newer alive_since
+    /// i handles a delayed heartbeat that node j sent before its last restart (it carries j's previous alive_since)
+    StaleHeartbeat(u8, u8),
 }
 
 impl Ev {
@@ -116,6 +118,7 @@ impl Ev {
             Ev::Timeout(..) => "timeout",
             Ev::Disconnect(..) => "disconnect",
             Ev::Restart(..) => "restart",
+            Ev::StaleHeartbeat(..) => "stale-heartbeat",
         }
     }
 }
@@ -174,6 +177,16 @@ fn events(pr: Params, w: &World, max_restarts: u8) -> Vec<Ev> {
             v.push(Ev::Restart(j));
         }
     }
+    // messages of a node's previous incarnation may still be in flight after its restart
+    for j in 0..n {
+        if w.alive[j as usize] > 100 + j as u64 {
+            for i in 0..n {
+                if i != j {
+                    v.push(Ev::StaleHeartbeat(i, j));
+                }
+            }
+        }
+    }
     v
 }
 
@@ -193,6 +206,13 @@ fn apply(pr: Params, w: &World, ev: Ev) -> World {
             let alive = w.alive[j];
             w.told[i][j] = w.told[i][j].max(alive);
             w.ms[i].on_heartbeat(actor_ref(j), &owned, alive, j, pr.n);
+        }
+        Ev::StaleHeartbeat(i, j) => {
+            let (i, j) = (i as usize, j as usize);
+            let owned = w.ms[j].assigned_partitions.clone();
+            let previous = w.alive[j] - 1000;
+            w.told[i][j] = w.told[i][j].max(previous);
+            w.ms[i].on_heartbeat(actor_ref(j), &owned, previous, j, pr.n);
         }
         Ev::Response(i, k) => {
             w.seen_response = true;
@@ -426,6 +446,7 @@ fn parse_ev(s: &str) -> Ev {
         "Timeout" => Ev::Timeout(inner[0], inner[1]),
         "Disconnect" => Ev::Disconnect(inner[0], inner[1]),
         "Restart" => Ev::Restart(inner[0]),
+        "StaleHeartbeat" => Ev::StaleHeartbeat(inner[0], inner[1]),
         _ => vcommon::machinery_fail(&format!("bad event {s}")),
     }
 }
